@@ -251,9 +251,10 @@ CLAIMED = {
              "tokenizer -- one lemma per state method (70), character references via C14's longest-match and "
              "numeric theorems -- so that with CDATA sections not allowed, for EVERY input, start state and "
              "last-start-tag name both machines terminate with the same token stream (no premise left); with CDATA "
-             "allowed the same holds for every run that does not enter a CDATA section. The lemmas are re-checked "
+             "allowed the same holds for every run that meets no U+0000 inside a CDATA section (html5lib's one-step "
+             "scan for ']]>' is proved to find the first terminator and to match S_tok's CDATA states). The lemmas are re-checked "
              "against the regenerated model on every run. S_tok is also run (extracted) against the implementation "
-             "from the five start states. PARTIAL: CDATA sections (one recorded finding there), the glue between "
+             "from the five start states. PARTIAL: U+0000 inside a CDATA section (the recorded finding), the glue between "
              "model and source (translator vocabulary, hand-modelled methods, input stream) and S_tok being a "
              "transcription of the standard are tested/trusted, not proved.",
         design_ref="DESIGN.md 3 C02",
